@@ -22,8 +22,11 @@ pub fn c07(rep: &mut Report, tier: &str) {
 
 pub fn c08(rep: &mut Report, tier: &str) {
     let quick = tier == "quick";
-    push(rep, c08_lists(3, 3));
-    push(rep, c08_lists(2, if quick { 3 } else { 4 }));
+    push(rep, c08_lists(&C08_SIGMA, 3, 3));
+    push(rep, c08_lists(&C08_SIGMA, 2, if quick { 3 } else { 4 }));
+    // boundary scalars of every encoded length (first/last code point of each length)
+    push(rep, c08_lists(&C08_BOUNDARY, 2, if quick { 2 } else { 3 }));
+    push(rep, c08_lists(&C08_BOUNDARY, 3, if quick { 1 } else { 2 }));
     push(rep, c08_typed(2, if quick { 2 } else { 3 }));
     if !quick {
         push(rep, c08_typed(3, 2));
